@@ -189,7 +189,7 @@ def run_with_timeout(mod, case, acc):
         signal.setitimer(signal.ITIMER_REAL, 0)
 
 
-def _work(task):
+def _work(task, progress=None):
     """Run the shards of one task in this (fresh) process."""
     acc = Acc()
     t0 = time.time()
@@ -199,6 +199,8 @@ def _work(task):
             stop = False
             for case in _MOD.cases(shard):
                 index += 1
+                if progress is not None:
+                    progress.value = index
                 n0 = len(acc.viol)
                 run_with_timeout(_MOD, case, acc)
                 for v in acc.viol[n0:]:
@@ -221,6 +223,89 @@ def _work(task):
     r = acc.result()
     r['wall'] = time.time() - t0
     return r
+
+
+def _task_main(pid, task, conn, progress):
+    try:
+        _init_worker(pid)
+        r = _work(task, progress)
+    except BaseException as exc:  # noqa
+        r = dict(harness_error=''.join(traceback.format_exception(
+            type(exc), exc, exc.__traceback__)), shard=repr(task)[:300])
+    conn.send(r)
+    conn.close()
+
+
+def _case_at(mod, task, index):
+    i = -1
+    for shard in task:
+        for case in mod.cases(shard):
+            i += 1
+            if i == index:
+                return case
+    return None
+
+
+def _crash_result(mod, task, index, exitcode):
+    """A worker process died (signal, abort, exit) while running a case:
+    that is an observation about the code under test, not a harness hang."""
+    case = _case_at(mod, task, index) if index >= 0 else None
+    if exitcode is not None and exitcode < 0:
+        try:
+            how = f'killed by signal {signal.Signals(-exitcode).name}'
+        except ValueError:
+            how = f'killed by signal {-exitcode}'
+    else:
+        how = f'exited with status {exitcode}'
+    v = dict(kind='crash', case=case, task=task, index=index,
+             detail=f'the worker process {how} while running this case '
+                    '(the interpreter itself went down: e.g. a segmentation '
+                    'fault or abort inside the BDD library reached through '
+                    'omega)')
+    return dict(evals=1, nontrivial=set(), viol=[v], nviol=1, samples=[],
+                counters=collections.Counter({'viol:crash': 1, 'capped': 1}),
+                sets={})
+
+
+def run_tasks(pid, mod, tasks, jobs):
+    """Run every task in its own freshly forked process, at most `jobs`
+    at a time; yield one result per task.  Unlike a process pool this
+    survives a worker that dies."""
+    import multiprocessing.connection as mpc
+    ctx = mp.get_context('fork')
+    pending = collections.deque(tasks)
+    running = {}
+    while pending or running:
+        while pending and len(running) < jobs:
+            task = pending.popleft()
+            rconn, wconn = ctx.Pipe(duplex=False)
+            progress = ctx.RawValue('i', -1)
+            p = ctx.Process(target=_task_main,
+                            args=(pid, task, wconn, progress))
+            p.start()
+            wconn.close()
+            running[p.sentinel] = (p, rconn, task, progress)
+        ready = mpc.wait([v[1] for v in running.values()] + list(running))
+        for key in list(running):
+            p, rconn, task, progress = running[key]
+            if rconn not in ready and key not in ready:
+                continue
+            r = None
+            if rconn.poll():
+                try:
+                    r = rconn.recv()
+                except (EOFError, OSError):
+                    r = None
+            elif p.is_alive():
+                continue
+            if r is None:
+                p.join()
+                r = _crash_result(mod, task, progress.value, p.exitcode)
+            else:
+                p.join()
+            rconn.close()
+            del running[key]
+            yield r
 
 
 def _witness(pid, case):
@@ -279,6 +364,8 @@ def confirm_in_fresh_process(pid, viol):
     for line in p.stdout.splitlines():
         if line.startswith('REPLAY-KINDS '):
             kinds = json.loads(line[len('REPLAY-KINDS '):])
+    if p.returncode < 0 and not kinds:
+        kinds = ['crash']     # the replaying interpreter went down as well
     return viol['kind'] in kinds, kinds
 
 
@@ -286,6 +373,26 @@ def do_replay(mod, pid, path, machine):
     with open(path) as f:
         d = json.load(f)
     case = d['case']
+    if d.get('kind') == 'crash' and not os.environ.get('VERIF_IN_CRASH_REPLAY'):
+        # the case took the interpreter down: replay it in a child
+        env = dict(os.environ, VERIF_IN_CRASH_REPLAY='1')
+        p = subprocess.run(
+            [sys.executable, '-m', 'vlib.runner', pid, '--replay', path] +
+            (['--machine'] if machine else []), cwd=VERIF, env=env,
+            capture_output=True, text=True)
+        if p.returncode >= 0:
+            sys.stdout.write(p.stdout)
+            return p.returncode
+        if machine:
+            print('REPLAY-KINDS ' + json.dumps(['crash']))
+            return 0
+        print(f'replay of {path}: case =')
+        print(json.dumps(case, indent=1, default=str)[:4000])
+        print('--- VIOLATION: kind=crash')
+        print(f'the replaying interpreter died (status {p.returncode}) '
+              'while running this case')
+        print(f'VIOLATION property={pid} replay={path}')
+        return 1
     acc = run_single(mod, case)
     kinds = sorted({v['kind'] for v in acc.viol})
     if d.get('kind') not in kinds and d.get('task') is not None:
@@ -395,28 +502,25 @@ def main(argv=None):
     samples = []
     harness_errors = []
     merged_sets = collections.defaultdict(set)
-    ctx = mp.get_context('fork')
     jobs = max(1, min(args.jobs, len(shards)))
     # Shards are dealt round-robin to at most 8 tasks per worker; every task
     # runs in a fresh process, so state that omega keeps between calls can
     # only come from the cases of the same task, which a replay rebuilds.
     ntasks = max(1, min(len(shards), 8 * jobs))
     tasks = [shards[i::ntasks] for i in range(ntasks)]
-    with ctx.Pool(jobs, initializer=_init_worker, initargs=(pid,),
-                  maxtasksperchild=1) as pool:
-        for r in pool.imap_unordered(_work, tasks, chunksize=1):
-            if 'harness_error' in r:
-                harness_errors.append(r)
-                continue
-            total['evals'] += r['evals']
-            total['nviol'] += r['nviol']
-            nontrivial |= r['nontrivial']
-            counters.update(r['counters'])
-            for k_, v_ in r.get('sets', {}).items():
-                merged_sets[k_] |= v_
-            viols.extend(r['viol'])
-            if len(samples) < 3 and r['samples']:
-                samples.append(r['samples'][0])
+    for r in run_tasks(pid, mod, tasks, jobs):
+        if 'harness_error' in r:
+            harness_errors.append(r)
+            continue
+        total['evals'] += r['evals']
+        total['nviol'] += r['nviol']
+        nontrivial |= r['nontrivial']
+        counters.update(r['counters'])
+        for k_, v_ in r.get('sets', {}).items():
+            merged_sets[k_] |= v_
+        viols.extend(r['viol'])
+        if len(samples) < 3 and r['samples']:
+            samples.append(r['samples'][0])
     if harness_errors:
         for h in harness_errors[:3]:
             print('HARNESS-ERROR in shard', h['shard'])
